@@ -252,6 +252,9 @@ class ActualArguments:
     pos_or_keyword_params: Container[Union[int, str]]
     ellipsis: bool = False
     param_spec: Optional[TypeVarValue] = None
+    # number of required positional arguments written after a *args of unknown
+    # length (they are merged into star_args)
+    min_star_args: int = 0
 
 
 class CallReturn(NamedTuple):
@@ -824,6 +827,36 @@ class Signature:
         # arguments that no named parameter matched.
         extra_keywords_consumed = False
         param_spec_consumed = False
+
+        if actual_args.min_star_args > 0:
+            # Positional arguments written after a *args of unknown length each
+            # need a parameter, however many elements *args turns out to have.
+            capacity = 0
+            unbounded = False
+            for param in self.parameters.values():
+                if param.kind in (
+                    ParameterKind.VAR_POSITIONAL,
+                    ParameterKind.PARAM_SPEC,
+                    ParameterKind.ELLIPSIS,
+                ):
+                    unbounded = True
+                    break
+                elif param.kind in (
+                    ParameterKind.POSITIONAL_ONLY,
+                    ParameterKind.POSITIONAL_OR_KEYWORD,
+                ):
+                    capacity += 1
+            given = actual_args.min_star_args
+            for i, (is_required, _) in enumerate(actual_args.positionals):
+                if is_required and i not in actual_args.pos_or_keyword_params:
+                    given += 1
+            if not unbounded and given > capacity:
+                self.show_call_error(
+                    f"Takes {capacity} positional arguments but"
+                    f" at least {given} were given",
+                    ctx,
+                )
+                return None
 
         for param in self.parameters.values():
             if param.kind is ParameterKind.POSITIONAL_ONLY:
@@ -2183,6 +2216,7 @@ def preprocess_args(
     is_ellipsis: bool = False
     pok_indices = set()
     param_spec = None
+    min_star_args = 0
 
     for arg, label in processed_args:
         if label is None or (isinstance(label, PossibleArg) and label.name is None):
@@ -2193,6 +2227,8 @@ def preprocess_args(
                 return None
             if star_args is not None:
                 star_args = unite_values(arg.value, star_args)
+                if is_required:
+                    min_star_args += 1
             else:
                 more_processed_args.append((is_required, arg))
         elif label is ARGS:
@@ -2249,6 +2285,7 @@ def preprocess_args(
         kwargs_required=any(kwargs_requireds),
         ellipsis=is_ellipsis,
         pos_or_keyword_params=pok_indices,
+        min_star_args=min_star_args,
         param_spec=param_spec,
     )
 
